@@ -69,6 +69,18 @@ def check(ctx):
             f = cfg.callee_of(b["blocks"][bi]["term"])
             if f and f["path"].endswith("Iterator::next") and "TypeInfo" in (F.ty_s(f["self_ty"]) if f.get("self_ty") is not None else ""):
                 arg_loops.append((lp, bi))
+    if not arg_loops:
+        # iterator form: `signal_types.iter().map(|t| ..one argument or an error..).collect::<Result<Vec<_>, _>>()`
+        calls = [cfg.callee_of(blk["term"]) for blk in b["blocks"] if not blk["cleanup"] and cfg.callee_of(blk["term"])]
+        last = lambda f: re.sub(r"::<[^<>]*>$", "", f["path"]).split("::")[-1]
+        names = [last(f) for f in calls]
+        src = any(("TypeInfo" in " ".join(F.ty_s(a) for a in f.get("args", []) if isinstance(a, int))) and last(f) in ("iter", "into_iter") for f in calls)
+        rt = F.ty_s(b["locals"][0]["ty"])
+        deny = {"filter", "filter_map", "flat_map", "flatten", "skip", "skip_while", "take", "take_while", "step_by", "zip", "chain", "dedup", "rev"} & set(names)
+        if "map" in names and "collect" in names and src and "Result<" in rt and not deny:
+            R.obligation("LOOP-A", FN + "|map-collect", "discharged", "one mapped element per signal type, collected into Result<Vec<_>, _> (stops at the first error)")
+            R.instance("LOOP-A", "iterator form: iter().map(..).collect::<Result<Vec<_>, _>>() over the signal types, no dropping adaptor")
+            return
     if len(arg_loops) != 1:
         R.violation("LOOP-A", FN + "|loop", "expected exactly one loop over the signal types, found %d" % len(arg_loops), function=FN, kind="UNRECOGNISED-SHAPE")
         return
